@@ -468,7 +468,8 @@ def check_cli(sc):
         if len(ob['values']) != len(sel):
             return out.fail('subset command: wrong number of subsets', got=len(ob['values']), expected=len(sel))
         for j, i in enumerate(sel):
-            dff = first_value_diff(ob['values'][j], case.values()[i])
+            # (the same comparison as for the API: FM-94's identification of a field's all-ones pattern with missing)
+            dff = diff_upto_all_ones(ob['values'][j], case.values()[i], case.decoded.fields_of(i))
             if dff is not None:
                 return out.fail('subset command: wrong values', position=j, index=dff[0], got=dff[1], expected=dff[2])
         # an index outside 0..n-1 is refused by the command as well: no message is written.  Probes: the generated one,
@@ -567,4 +568,4 @@ def replay(path):
             print('VIOLATION property=%s replay=%s' % (PID, path))
             print('  clause: %s detail: %s' % (clause, json.dumps(runner.jsonable(detail))[:600]))
         return 1 if fails else 0
-    return std.replay_main(PID, path, check_case, SubCase.from_json)
+    return std.replay_main(PID, path, check_cli if d.get('stage') == 'command line' else check_case, SubCase.from_json)
